@@ -590,3 +590,15 @@ def replay(ctx, data):
         shutil.rmtree(base0, ignore_errors=True)
         if foreign0:
             shutil.rmtree(foreign0, ignore_errors=True)
+
+
+# ----------------------------------------------------------------------------------------------- source tie (DESIGN §4.2)
+# the definitions of Gen/DecisionsLib.v this property's Props file ties to the model (`*_generated_eq_model`): when
+# tools/gen/decisions_lib.py could not translate the current source text the tie is broken and reported
+GEN_LIB_TARGETS = ['skip_filesize', 'skip_entry', 'par_should_skip_filesize', 'par_should_skip_filtered', 'par_send']
+_run_checks = run
+
+
+def run(ctx):
+    _run_checks(ctx)
+    vlib.report_gen_drift(ctx, "decisions_lib", GEN_LIB_TARGETS, bool(ctx.violations))
